@@ -74,7 +74,9 @@ def is_resource_modified(
         etag, _ = unquote_etag(etag)
 
         if if_range is not None and if_range.etag is not None:
-            unmodified = parse_etags(if_range.etag).contains(etag)
+            # The entity tag was already unquoted, compare it as it is. Parsing
+            # it again would treat "*" or a comma in the tag as syntax.
+            unmodified = if_range.etag == etag
         else:
             if_none_match = parse_etags(http_if_none_match)
             if if_none_match:
